@@ -25,12 +25,13 @@ MC = """CONSTANTS NN = 3
  Apply <- ApplyStr
  Draw <- DrawStr
  FromScratch = TRUE
+ ErrVal = "ERR"
 INIT Init
 NEXT Next
 INVARIANT PureInv
 INVARIANT GetPutInv
 """
-TV_CFG = 'CONSTANTS None = "-"\n Apply <- ApplyStr\n Draw <- DrawStr\n FromScratch = TRUE\n'
+TV_CFG = 'CONSTANTS None = "-"\n Apply <- ApplyStr\n Draw <- DrawStr\n FromScratch = TRUE\n ErrVal = "ERR"\n'
 
 
 def run(chk: Check):
